@@ -33,6 +33,7 @@ def gen_case(seed, i, tier):
         o["InterpolationPoints"] = r.choice([2, 3])
     if r.chance(0.3):
         o["InitialDistZoom"] = r.choice([0.8, 1.3])
+    prog.sprinkle(core.Rng("c11nuisance", seed, i), o, clamp_ok=True, padding_ok=(imp != "file"))      # the same in all three runs of a case
     T1 = r.choice([0.25, 0.5])
     T2 = r.choice([0.25, 0.5])
     o1 = r.choice([4, 5, 10])
